@@ -44,6 +44,7 @@ type Script struct {
 //	failwrites c         c's Write returns an error from now on (connection reset)
 //	awaitrecv c e        PROGRESS MONITOR: c must receive e (watchdog firing = violation)
 //	awaitunreg c         wait for c's "unregistered" hook
+//	hold n               let n milliseconds of REAL time pass (long stalls: the handler has no virtual clock)
 func (s Step) String() string {
 	a := ""
 	if s.Async {
@@ -67,6 +68,8 @@ func (s Step) String() string {
 		return fmt.Sprintf("%s %s %d", s.Op, s.Site, s.N)
 	case "awaitrecv":
 		return fmt.Sprintf("awaitrecv c%d e%d", s.C, s.E)
+	case "hold":
+		return fmt.Sprintf("hold %dms", s.N)
 	}
 	return s.Op
 }
@@ -379,6 +382,38 @@ func MinimalCrashScript() Script {
 	b.gatedSend()
 	b.cancel(0, false)
 	b.gate("deliver", false)
+	return b.s
+}
+
+// LongStallLadder: how long (seconds of real time) a connected client is kept
+// stalled inside ResponseWriter.Write in the long-stall schedules. A run covers
+// the whole ladder of its tier.
+func LongStallLadder(quick bool) []float64 {
+	if quick {
+		return []float64{6.5}
+	}
+	return []float64{6.5, 16, 35, 65}
+}
+
+// longStallScript: c0's writer blocks (stalled browser, created at the client
+// boundary, no hook involved) while e0 is being written to it; e1 and e2 are
+// broadcast meanwhile — the healthy c1 must get them promptly and Send must
+// return (progress monitor); c0 stays stalled for T seconds of real time, then
+// resumes. c0 never disconnected, so it is a stable client of the history and
+// the delivery monitor requires e0, e1 and e2 in its receiver sets.
+func longStallScript(seconds float64) Script {
+	b := newBuilder(fmt.Sprintf("forced/long-stall T=%gs", seconds), 12, 10)
+	b.sub(false)
+	b.sub(false)
+	b.op("stall", 0)
+	b.send(false)
+	b.op("awaitblocked", 0)
+	for i := 0; i < 2; i++ {
+		e := b.send(false)
+		b.add(Step{Op: "awaitrecv", C: 1, E: e})
+	}
+	b.add(Step{Op: "hold", N: int(seconds * 1000)})
+	b.op("unstall", 0)
 	return b.s
 }
 
